@@ -162,6 +162,8 @@ class Documentable:
 
     def setup(self) -> None:
         self.contents: Dict[str, Documentable] = {}
+        self._superseded: List[Documentable] = []
+        """Children that were replaced in L{contents} by a later definition of the same name."""
         self._linker: Optional['linker.DocstringLinker'] = None
 
     def setDocstring(self, node: astutils.Str) -> None:
@@ -285,16 +287,21 @@ class Documentable:
         new_parent.contents[new_name] = self
         self._handle_reparenting_post()
 
+    def _registered_children(self) -> Iterator['Documentable']:
+        """The children registered below this object: its contents and the definitions they superseded."""
+        yield from self.contents.values()
+        yield from self._superseded
+
     def _handle_reparenting_pre(self) -> None:
         del self.system.allobjects[self.fullName()]
         # A linker created before the move computes links relative to the old page.
         self._linker = None
-        for o in self.contents.values():
+        for o in self._registered_children():
             o._handle_reparenting_pre()
 
     def _handle_reparenting_post(self) -> None:
         self.system.allobjects[self.fullName()] = self
-        for o in self.contents.values():
+        for o in self._registered_children():
             o._handle_reparenting_post()
     
     def _localNameToFullName(self, name: str) -> str:
@@ -1384,7 +1391,7 @@ class System:
     
     def _remove(self, o: Documentable) -> None:
         del self.allobjects[o.fullName()]
-        oc = list(o.contents.values())
+        oc = list(o._registered_children())
         for c in oc:
             self._remove(c)
 
@@ -1411,16 +1418,19 @@ class System:
         obj.report(f"duplicate {str(prev)}", thresh=1)
         def subtree(o: Documentable) -> Iterator[Documentable]:
             yield o
-            for c in o.contents.values():
+            for c in o._registered_children():
                 yield from subtree(c)
         old_names = [o.fullName() for o in subtree(prev)]
         self._remove(prev)
         prev.name = obj.name + ' ' + str(i)
         def readd(o: Documentable) -> None:
             self.allobjects[o.fullName()] = o
-            for c in o.contents.values():
+            for c in o._registered_children():
                 readd(c)
         readd(prev)
+        if prev.parent is not None:
+            # No longer in the contents of its parent, but still registered below it.
+            prev.parent._superseded.append(prev)
         self.allobjects[fullName] = obj
         # The record of which objects had their docstring errors reported is keyed by
         # full name: it follows the renamed objects, the new object starts with a clean slate.
